@@ -7,6 +7,7 @@ package checks
 import (
 	"bytes"
 	"fmt"
+	xhtml "golang.org/x/net/html"
 	stdhtml "html"
 	"sort"
 	"strings"
@@ -38,6 +39,8 @@ var stdURLAttrs = setOf("action", "cite", "data", "formaction", "href", "itemid"
 	"longdesc", "profile", "icon", "classid", "xmlns")
 
 // raw text, escapable raw text, legacy raw text elements and foreign-content roots
+var voidsC17 = setOf("img", "input", "embed", "wbr", "keygen")
+
 var stdRawElems = setOf("script", "style", "textarea", "title", "iframe", "xmp", "noembed", "noframes", "noscript", "plaintext", "svg", "math")
 
 // elements whose default display (HTML Standard, Rendering) is block, list-item, table-*, none, or that are a line break
@@ -304,6 +307,99 @@ func C17(run *core.Run) {
 				if !stdOmitPBefore[tag] {
 					viol("html.tagMap", entry, "p end tag omitted before this element, which the HTML Standard does not allow")
 				}
+			}
+		}
+	}
+	// behavioural probe for every element that is not a break element: the words around and inside it stay apart
+	// (fallback content that ends in white space, inline content before the end tag)
+	{
+		voids := voidsC17
+		// elements that are laid out as one inline box (replaced content, form controls): white space inside them does
+		// not separate the words outside
+		atomic := setOf("audio", "video", "canvas", "object", "embed", "img", "input", "progress", "meter")
+		outerText := func(doc, tag string) string {
+			z := xhtml.NewTokenizer(strings.NewReader(doc))
+			var words []string
+			depth, inTitle := 0, false
+			for {
+				tt := z.Next()
+				if tt == xhtml.ErrorToken {
+					break
+				}
+				switch tt {
+				case xhtml.StartTagToken, xhtml.SelfClosingTagToken:
+					n, _ := z.TagName()
+					switch {
+					case string(n) == "title":
+						inTitle = true
+					case string(n) == tag:
+						if depth == 0 {
+							words = append(words, "\u25a2")
+						}
+						if tt == xhtml.StartTagToken && !voidsC17[tag] {
+							depth++
+						}
+					}
+				case xhtml.EndTagToken:
+					n, _ := z.TagName()
+					if string(n) == "title" {
+						inTitle = false
+					} else if string(n) == tag && depth > 0 {
+						depth--
+					}
+				case xhtml.TextToken:
+					if depth == 0 && !inTitle {
+						words = append(words, string(z.Text()))
+					}
+				}
+			}
+			return strings.Join(strings.Fields(strings.Join(words, "")), " ")
+		}
+		visibleText := func(doc string) string {
+			z := xhtml.NewTokenizer(strings.NewReader(doc))
+			var words []string
+			skip := ""
+			for {
+				tt := z.Next()
+				if tt == xhtml.ErrorToken {
+					break
+				}
+				switch tt {
+				case xhtml.StartTagToken:
+					n, _ := z.TagName()
+					if string(n) == "title" {
+						skip = "title"
+					}
+				case xhtml.EndTagToken:
+					n, _ := z.TagName()
+					if string(n) == skip {
+						skip = ""
+					}
+				case xhtml.TextToken:
+					if skip == "" {
+						words = append(words, string(z.Text()))
+					}
+				}
+			}
+			return strings.Join(strings.Fields(strings.Join(words, "")), " ")
+		}
+		for tag := range tags {
+			if stdBreakElems[tag] || stdRawElems[tag] || tag == "a" || tag == "select" || tag == "button" || tag == "rt" || tag == "ruby" || tag == "rb" || tag == "rtc" {
+				continue // (a, select, button: nesting rules of their own; ruby parts: see C03)
+			}
+			entry := tag + ":words-stay-apart"
+			ev("html.tagMap", entry, true)
+			in := "<!doctype html><title>t</title><p>a <" + tag + "> x </" + tag + "> b <" + tag + "><i>y</i> </" + tag + "> c</p>"
+			if voids[tag] {
+				in = "<!doctype html><title>t</title><p>a <" + tag + "> b<" + tag + "> c</p>"
+			}
+			out, err, _ := minifyBytes(hm, "text/html", []byte(in))
+			a, b := visibleText(in), visibleText(string(out))
+			if atomic[tag] {
+				a, b = outerText(in, tag), outerText(string(out), tag)
+			}
+			if err != nil || a != b {
+				viol("html.tagMap", entry, fmt.Sprintf("words are joined or split next to <%s>: %q -> %q (text %q -> %q)", tag, in, out, a, b))
 			}
 		}
 	}
